@@ -113,6 +113,9 @@ class KeyFile:
             with open(filename, "rb") as fp:
                 self.__key = fp.read()
         except OSError:
+            if os.path.exists(filename):
+                # the key file is there but cannot be read: never replace an existing key
+                raise
             self.__key = self.__generate_key()
         else:
             try:
